@@ -544,7 +544,7 @@ fn eval_case(c: &Case, only: Option<&Qry>, quick: bool) -> CaseResult {
         Ok(Err(e)) => {
             cov.outcome("build-error");
             violations.push(Violation::new("build", &format!("build-error/{:?}/{:?}/{}/{}", c.mode, c.elem, e.split(':').next().unwrap_or("step"), site(&e)).to_lowercase(), format!("{c:?}: {}", e.chars().take(300).collect::<String>()), json!({"case": c})));
-            return CaseResult { cov, violations };
+            return CaseResult { cov, violations: collapse_non_f32_flat(c, violations) };
         }
         Err(p) => {
             cov.outcome("build-panic");
@@ -556,7 +556,12 @@ fn eval_case(c: &Case, only: Option<&Qry>, quick: bool) -> CaseResult {
         Some(q) => vec![q.clone()],
         None => queries(c, quick),
     };
+    let mut failures_in_a_row = 0;
     for q in &qs {
+        if failures_in_a_row >= 3 && c.mode == Mode::IvfFlat && c.elem != Elem::F32 {
+            cov.outcome("skipped-after-3-failing-queries");
+            continue;
+        }
         let art = json!({"case": c, "query": q});
         let run = |b: &Built| vds::run_catch(run_query(b, c, q));
         let first = run(&built);
@@ -571,11 +576,13 @@ fn eval_case(c: &Case, only: Option<&Qry>, quick: bool) -> CaseResult {
         let got = match first {
             Err(p) => {
                 cov.outcome("panic");
+                failures_in_a_row += 1;
                 violations.push(Violation::new("panic", &format!("panic/query/{:?}/{:?}/{}", c.mode, c.elem, site(&p)).to_lowercase(), format!("{c:?} {q:?}: {}", p.chars().take(300).collect::<String>()), art));
                 continue;
             }
             Ok(Err(e)) => {
                 cov.outcome("error");
+                failures_in_a_row += 1;
                 violations.push(Violation::new(
                     "error",
                     &format!("error/query/{:?}/{:?}/{}", c.mode, c.elem, site(&e)).to_lowercase(),
@@ -587,6 +594,7 @@ fn eval_case(c: &Case, only: Option<&Qry>, quick: bool) -> CaseResult {
             Ok(Ok(g)) => g,
         };
         cov.outcome(if got.is_empty() { "empty" } else { "rows" });
+        failures_in_a_row = 0;
         let bad = judge(&built, c, q, &got);
         if bad.is_empty() {
             if nontrivial {
@@ -608,7 +616,11 @@ fn eval_case(c: &Case, only: Option<&Qry>, quick: bool) -> CaseResult {
             _ => false,
         };
         for (class, text) in bad {
-            let key = format!("{}{}/{:?}/{:?}", if confirmed { "" } else { "flaky/" }, class, c.mode, q.metric).to_lowercase();
+            let key = if class == "zero-vector-row-not-returned" && confirmed {
+                "zero-vector-row-not-returned-by-cosine-index".to_string()
+            } else {
+                format!("{}{}/{:?}/{:?}", if confirmed { "" } else { "flaky/" }, class, c.mode, q.metric).to_lowercase()
+            };
             violations.push(Violation::new(
                 "knn",
                 &key,
@@ -617,7 +629,22 @@ fn eval_case(c: &Case, only: Option<&Qry>, quick: bool) -> CaseResult {
             ));
         }
     }
-    CaseResult { cov, violations }
+    CaseResult { cov, violations: collapse_non_f32_flat(c, violations) }
+}
+
+/// The `flat` sub-index only implements Float32 vectors (FlatQuantizer::field / FlatDistanceCal), yet
+/// create_index accepts IVF_FLAT on float16 / float64 columns; every later use of the index (query,
+/// compaction remap) then fails or panics at a different place. One key per element type for that.
+fn collapse_non_f32_flat(c: &Case, mut v: Vec<Violation>) -> Vec<Violation> {
+    if c.mode == Mode::IvfFlat && c.elem != Elem::F32 {
+        for x in v.iter_mut() {
+            if x.key.starts_with("error/") || x.key.starts_with("panic/") || x.key.starts_with("build-error/") {
+                x.what = format!("[{}] {}", x.key, x.what);
+                x.key = "ivf_flat-on-non-f32-column-accepted-but-unusable".to_string();
+            }
+        }
+    }
+    v
 }
 
 pub fn run(ctx: &Ctx) -> Outcome {
